@@ -39,6 +39,11 @@ def main():
         sys.exit(2)
     sh(["git", "apply", patch], cwd=REPO)
     results = {}
+    # the evidence files describe runs on the UNCHANGED tree: keep them out of the seeded runs
+    saved = {}
+    for pid in todo:
+        ep = os.path.join(ROOT, "evidence", pid + ".json")
+        saved[pid] = open(ep).read() if os.path.exists(ep) else None
     try:
         for pid in todo:
             t0 = time.time()
@@ -63,6 +68,10 @@ def main():
             results[pid] = {"fired": bool(viol), "kind": kind, "detail": detail, "wall_s": round(time.time() - t0, 1)}
             print(pid, results[pid]["kind"], results[pid]["detail"][:140], flush=True)
     finally:
+        for pid, text in saved.items():
+            ep = os.path.join(ROOT, "evidence", pid + ".json")
+            if text is not None:
+                open(ep, "w").write(text)
         sh(["git", "checkout", "--", "."], cwd=REPO)
         rc, out = sh(["git", "status", "--porcelain"], cwd=REPO)
         if out.strip():
